@@ -333,8 +333,7 @@ func (s *Sim) answer(r *Req, outcome string) {
 						// before the resource has been loaded; a failure that arrives
 						// out of band (timeout) may come later, and the events dropped
 						// while the re-fetch was under way are then lost
-						s.refetchFailed[v] = true
-						s.sawDerived[v] = true
+						s.noteFailedRefetch(r, v)
 					} else if notFound {
 						// the gateway turns a not-found re-fetch into a delete event
 						v.announce(&StreamEv{Kind: "delete", Derived: true, Via: r, EmitStep: s.Step, EmitCut: s.Cut}, true)
